@@ -304,6 +304,9 @@ func (env *ExecEnv) expandParam(fields []*field, pe *ast.ParamExp, mode ExpMode)
 		// simplest form
 		switch {
 		case mode&Arith != 0 && !(env.isSpParam(pe.Name.Value) || env.isPosParam(pe.Name.Value)):
+			if !set && env.Opts&NoUnset != 0 {
+				goto Unset
+			}
 			fields[len(fields)-1].join(pe.Name.Value, quote)
 		case set && !null:
 			goto Param
